@@ -199,6 +199,9 @@ def run(tier, replay):
     elif t.distinct < len(recs):
         raise vlib.ToolError("trace validation consumed too few records")
 
+    if ctx.violations:
+        # a broken tree: report what was found; the binding self-test presumes a clean run
+        return ctx.finish()
     # 4. binding self-test (quick and thorough): corrupted vectors / a corrupted record must be rejected
     def first(pred):
         return copy.deepcopy(next(x for x in others if pred(x)))
